@@ -492,8 +492,66 @@ func (r *yieldRewriter) rewriteSwitchStmt(
 		X.Block(cases...),
 	)
 	children = r.combineIfNecessary(children)
+	if r.breakInThunk(cases) {
+		// a break of this switch that ended up in a continuation thunk is emitted as
+		// Break() in pass 3: delimit the switch, so that it ends the switch and not
+		// the enclosing loop (or the whole generator)
+		inner := mkBlock(kindDelay)
+		inner.push(switchStmt, kindSwitch)
+		r.generateLastNormalIfNecessary(inner)
+		callBreakable := r.SeqCall(cstBreakable, r.CallDelay(inner.block))
+		children.pushReturn(callBreakable, kindFor /* a call, like seq.For */)
+		return children
+	}
 	children.push(switchStmt, kindSwitch)
 	return children
+}
+
+// breakInThunk reports whether an unlabelled break that binds to the switch with the
+// given (rewritten) clauses sits in a func literal, where pass 3 turns it into Break()
+func (r *yieldRewriter) breakInThunk(cases []ast.Stmt) bool {
+	found := false
+	var walk func(n ast.Node, inLit bool)
+	walk = func(root ast.Node, inLit bool) {
+		ast.Inspect(root, func(n ast.Node) bool {
+			switch n := n.(type) {
+			case *ast.ForStmt, *ast.RangeStmt, *ast.SwitchStmt, *ast.TypeSwitchStmt, *ast.SelectStmt:
+				return n == root // nested native statements own their breaks
+			case *ast.CallExpr:
+				// lowered loops and delimited switches own the breaks of their thunks
+				return !r.isSeqCall(n, cstFor, cstWhile, cstLoop, cstBreakable)
+			case *ast.FuncLit:
+				if n != root {
+					walk(n, true)
+					return false
+				}
+			case *ast.BranchStmt:
+				found = found || inLit && n.Tok == token.BREAK && n.Label == nil
+			}
+			return !found
+		})
+	}
+	for _, c := range cases {
+		for _, stmt := range c.(*ast.CaseClause).Body {
+			walk(stmt, false)
+		}
+	}
+	return found
+}
+
+// continueBindsTo reports whether body contains an unlabelled continue of the loop it belongs to
+func continueBindsTo(body *ast.BlockStmt) bool {
+	found := false
+	ast.Inspect(body, func(n ast.Node) bool {
+		switch n := n.(type) {
+		case *ast.ForStmt, *ast.RangeStmt, *ast.FuncLit:
+			return false
+		case *ast.BranchStmt:
+			found = found || n.Tok == token.CONTINUE && n.Label == nil
+		}
+		return !found
+	})
+	return found
 }
 
 func (r *yieldRewriter) rewriteForStmt(
@@ -541,7 +599,9 @@ func (r *yieldRewriter) rewriteForStmt(
 		return children
 	}
 
-	if body.combineRequired() {
+	// a continue of this loop must still reach the yielding post statement
+	hasContinue := continueBindsTo(stmt.Body)
+	if body.combineRequired() || hasContinue {
 		// combine(delay(body), delay(post))
 		// rewriting by seq.Combine avoiding control flow analysis (merging body & post)
 
@@ -561,6 +621,11 @@ func (r *yieldRewriter) rewriteForStmt(
 		r.generateLastNormalIfNecessary(body)
 
 		callCombine := r.CallCombine(body.block, postBlock.block)
+		if hasContinue {
+			// combine(continuable(delay(body)), delay(post)):
+			// Combine would skip the post on Continue()
+			callCombine.Args[0] = r.SeqCall(cstContinuable, callCombine.Args[0])
+		}
 		newBody := mkBlock(body.kind)
 		newBody.pushReturn(callCombine, kindCombine)
 		body = newBody
